@@ -104,6 +104,16 @@ Theorem C03_integer_model_exact_range : forall eqT (fs : list (frag NumZ)) (lws 
   forall j i c, nth_error minima j = Some (i, c) -> (0 <= c < 2^53)%Z.
 Proof. exact exact_domain. Qed.
 
+(* tie to the source text: the documented default penalties are the literals of
+   Penalties::new() in /repo/src/wrap_algorithms/optimal_fit.rs on this run *)
+From TW Require Import SrcConsts SrcConstsFacts.
+Theorem C03_source_constants :
+  src_default_penalties =
+  [p_nline default_penalties; p_overflow default_penalties; p_frac default_penalties;
+   p_short default_penalties; p_hyphen default_penalties].
+Proof. exact src_default_penalties_ok. Qed.
+Print Assumptions C03_source_constants.
+
 Print Assumptions C03_lower_bound.
 Print Assumptions C03_integer_model_exact_range.
 Print Assumptions C03_checker_sound.
